@@ -107,7 +107,7 @@ def stage_consts(c, drv):
 def stage_sf(c, drv, gps):
     rng = c.rng
     xs = [-1.0, -1 / 3, 0.0, 1 / 3, 1.0, 0.5, -0.5] + [p for e in (1, 2, 3) for p, _ in gps[e]]
-    xs += [rng.randrange(-192, 193) / 128.0 for _ in range(c.pick(24, 200))]
+    xs += [rng.randrange(-192, 193) / 128.0 for _ in range(c.pick(10, 200))]
     rc, out, err = c.run([drv, "sf"], input="\n".join("%r" % x for x in xs) + "\n")
     if rc != 0:
         raise vlib.BuildError("driver sf failed: " + err[-800:])
@@ -232,7 +232,7 @@ def stage_elem(c, drv, gps):
 def problems(c):
     rng = c.rng
     P = []
-    for k in range(c.pick(3, 10)):
+    for k in range(c.pick(2, 8)):
         Ri = rng.randrange(40, 400) / 100.0 * (10 ** rng.choice([-3, 0]))
         ratio = rng.choice([1.12, 1.5, 2.0, 2.5]) if k else 2.0
         Re = Ri * ratio
